@@ -41,13 +41,15 @@ CHECKS = {
             "machine-checked proof (Coq 8.16) on a hand-written model + differential correspondence check with fault enumeration",
             "DESIGN.md 8.C07"),
     "C19": ("proof",
-            "Coq theorems (Props/C19.v: c19_must_and_maximal, c19_buffer, c19_reset, c19_greedy_optimal) about "
-            "Model/Writer.v at every reachable state: an emit writes only if buffered+metric+terminator >= capacity, "
-            "every datagram it flushes could not have taken the new metric, a strictly fitting emit writes nothing; "
-            "next-fit packing is optimal among in-order partitions (pure lemma).  The step from the two local clauses to "
-            "the datagram count of a whole segment is checked on the implementation's log (greedy count), not proved",
-            TRUST + "modelled not verified: std BufWriter; c19_optimal is partial (local maximality proved, global count "
-            "validated by the check)",
+            "Coq theorems (Props/C19.v, 9: c19_must_and_maximal, c19_buffer, c19_reset, c19_greedy_optimal, c19_count, c19_optimal, "
+            "c19_count_segments + witnesses) about Model/Writer.v: at every reachable state and under every fault script an emit "
+            "writes only if buffered+metric+terminator >= capacity and every datagram it flushes could not have taken the new "
+            "metric; for fault-free lives of fitting metrics the number of datagrams carrying bytes EQUALS the number of blocks "
+            "next-fit packing opens (per segment between explicit flushes), which is the minimum over all in-order partitions "
+            "into blocks that fit.  Tied to io.rs by the correspondence check (run under fault scripts too; the local clauses "
+            "are judged under faults, the datagram count on fault-free segments)",
+            TRUST + "modelled not verified: std BufWriter; the count theorems assume no zero-length line (empty metric and "
+            "empty terminator) and metrics that fit (oversized ones bypass the buffer and are not part of the packing)",
             "machine-checked proof (Coq 8.16) on a hand-written model + differential correspondence check",
             "DESIGN.md 8.C19"),
 }
